@@ -251,6 +251,11 @@ func (g *GcsEmu) handleGcsListBucket(ctx context.Context, baseUrl HttpBaseUrl, w
 }
 
 func (g *GcsEmu) handleGcsDelete(ctx context.Context, w http.ResponseWriter, bucket string, filename string, conds cloudstorage.Conditions) {
+	if bucket == "" {
+		// DELETE /storage/v1/b names no bucket; the stores would resolve the empty name to their root.
+		g.gapiError(w, http.StatusBadRequest, "missing bucket name")
+		return
+	}
 	err := g.locks.Run(ctx, lockName(bucket, filename), func(ctx context.Context) error {
 		// Find the existing file / meta.
 		obj, err := g.store.GetMeta(dontNeedUrls, bucket, filename)
